@@ -42,6 +42,11 @@ type c17Chardata struct {
 	Text    string   `xml:",chardata" json:"text"`
 }
 
+// c17Any carries a value behind an interface (what the encoders accept depends on the dynamic type)
+type c17Any struct {
+	V interface{} `json:"v" xml:"v"`
+}
+
 type c17Opts struct {
 	Charset    string `json:"charset"`
 	JSONIndent string `json:"json_indent"`
@@ -49,7 +54,7 @@ type c17Opts struct {
 }
 
 type c17Op struct {
-	Kind   string      // JSON XML Binary PlainText
+	Kind   string // JSON XML Binary PlainText
 	Status int
 	Val    interface{} // value for JSON/XML, []byte for Binary, string for PlainText
 }
@@ -175,6 +180,11 @@ func c17JudgeM(w *c17World, o c17Opts, op c17Op, method string) (bad, kind strin
 		if body != string(want) {
 			return fmt.Sprintf("XML body %q differs from the standard encoder's output %q", trunc(body), trunc(string(want))), "xml-text"
 		}
+		switch op.Val.(type) {
+		case c17Any, []interface{}:
+			// the dynamic types behind an interface are not in the XML text: only the text is compared
+			return "", ""
+		}
 		back := reflect.New(reflect.TypeOf(op.Val))
 		if err := xml.Unmarshal([]byte(body), back.Interface()); err != nil {
 			return fmt.Sprintf("XML body does not decode: %v", err), "xml-roundtrip"
@@ -209,7 +219,8 @@ func c17JSONTrees() []interface{} {
 			out = append(out, []interface{}{a, b}, map[string]interface{}{"k": a, "<j>": b}, []interface{}{map[string]interface{}{"k": a}, []interface{}{b}}, map[string]interface{}{"o": map[string]interface{}{"k": a}, "l": []interface{}{b, a}})
 		}
 	}
-	out = append(out, c17Flat{A: "x", B: "<y>"}, c17Nested{In: c17Flat{A: "1"}, C: "2"}, c17Slice{Items: []string{"p", "q"}}, []int{1, 2, 3}, map[string]int{"a": 1}, 42, int64(-7), "top-level string", []byte("bytes become base64"))
+	out = append(out, c17Flat{A: "x", B: "<y>"}, c17Nested{In: c17Flat{A: "1"}, C: "2"}, c17Slice{Items: []string{"p", "q"}}, []int{1, 2, 3}, map[string]int{"a": 1}, 42, int64(-7), "top-level string", []byte("bytes become base64"),
+		c17Any{V: "a"}, c17Any{V: 1.5}, c17Any{V: nil}, c17Any{V: []interface{}{"<", true}})
 	return out
 }
 
@@ -223,8 +234,9 @@ func c17XMLValues() []interface{} {
 				out = append(out, c17Nested{In: c17Flat{A: a, B: b}, C: c})
 			}
 		}
-		out = append(out, c17Slice{Items: []string{a}}, c17Slice{})
+		out = append(out, c17Slice{Items: []string{a}}, c17Slice{}, c17Any{V: a}, []interface{}{a, 1}, []interface{}{c17Flat{A: a}})
 	}
+	out = append(out, c17Any{V: 7}, c17Any{V: c17Flat{A: "in"}})
 	return out
 }
 
@@ -235,6 +247,47 @@ type c17Case struct {
 	Val    string  `json:"value_go_syntax"`
 	Index  int     `json:"value_index"`
 	Seq    bool    `json:"after_HEAD_GET_POST_sequence,omitempty"`
+	// Refused: the request follows, on the same instance, a request whose value the encoder refused
+	Refused bool `json:"after_a_request_whose_value_the_encoder_refused,omitempty"`
+}
+
+// c17Refused returns values of the same top-level type as v that the standard encoders refuse (a
+// channel / a function behind an interface). Rendering one is outside the statement; the request after it is not.
+func c17Refused(v interface{}) []interface{} {
+	switch v.(type) {
+	case map[string]interface{}:
+		return []interface{}{map[string]interface{}{"k": make(chan int)}, map[string]interface{}{"k": "v", "f": func() {}}}
+	case []interface{}:
+		return []interface{}{[]interface{}{"a", func() {}}, []interface{}{make(chan int)}}
+	case c17Any:
+		return []interface{}{c17Any{V: make(chan int)}, c17Any{V: func() {}}}
+	}
+	return nil
+}
+
+// c17AfterRefused: on a fresh instance, a request that renders a refused value of op's type (whatever it
+// answers), then op, which must be rendered as on a fresh instance.
+func c17AfterRefused(o c17Opts, op c17Op, count func()) (bad, kind string) {
+	if op.Kind != "JSON" && op.Kind != "XML" {
+		return "", ""
+	}
+	for _, rv := range c17Refused(op.Val) {
+		for _, n := range []int{1, 2} {
+			w := c17Build(o)
+			w.op = c17Op{op.Kind, 200, rv}
+			for i := 0; i < n; i++ {
+				func() {
+					defer func() { _ = recover() }()
+					w.f.ServeHTTP(&c01Spy{hdr: http.Header{}}, newReq("GET", "/"))
+				}()
+			}
+			count()
+			if bad, kind = c17Judge(w, o, op); bad != "" {
+				return fmt.Sprintf("after %d earlier request(s) that rendered %s of a value the encoder refuses (%T): ", n, op.Kind, rv) + bad, kind + "/after-refused-value"
+			}
+		}
+	}
+	return "", ""
 }
 
 func c17Ops(thorough bool) []c17Op {
@@ -293,7 +346,7 @@ func c17Run(r *core.Run) {
 		}
 	}
 	ops := c17Ops(r.Thorough())
-	r.Rule = "engine E: every status 100..999 x {JSON, XML, Binary, PlainText} x all 8 option sets (charset x JSON indent x XML indent); values: every byte string of length <=1 and a grid (thorough: all) of length 2 plus longer ones for Binary/PlainText, JSON trees over {null,bool,numbers,strings incl. html-sensitive and non-ASCII} to depth 2 width 2 plus structs/slices/maps, five XML struct shapes with all field values from {'', a, <&>\", e-acute, blanks, ]]>}; oracle: exact status at the underlying writer, exact Content-Type, bytes/strings verbatim, JSON/XML text equal to the standard encoder's output with the configured indentation and decoding back to an equal value; non-trivial = non-200 status or a value that needs escaping"
+	r.Rule = "engine E: every status 100..999 x {JSON, XML, Binary, PlainText} x all 8 option sets (charset x JSON indent x XML indent); values: every byte string of length <=1 and a grid (thorough: all) of length 2 plus longer ones for Binary/PlainText, JSON trees over {null,bool,numbers,strings incl. html-sensitive and non-ASCII} to depth 2 width 2 plus structs/slices/maps, five XML struct shapes with all field values from {'', a, <&>\", e-acute, blanks, ]]>}; every JSON/XML value with an interface in it also as the request after one or two requests (same instance) whose value of the same type the encoder refused; oracle: exact status at the underlying writer, exact Content-Type, bytes/strings verbatim, JSON/XML text equal to the standard encoder's output with the configured indentation and decoding back to an equal value; non-trivial = non-200 status or a value that needs escaping"
 	r.Bounds["ops"] = len(ops)
 	r.Bounds["option_sets"] = len(optsets)
 	r.Assumptions = []string{"encoding/json and encoding/xml are the reference encoders (trusted)", "values the standard encoders refuse are outside the statement"}
@@ -367,14 +420,26 @@ func c17Run(r *core.Run) {
 						}
 					}
 				}
+				refused := false
+				if bad == "" {
+					bad, kind = c17AfterRefused(o, op, func() {
+						l.States++
+						l.Evals++
+						l.Transitions += 2
+						l.Traces++
+						l.Extra["requests_after_a_refused_value"]++
+					})
+					refused = bad != ""
+				}
 				if bad != "" {
 					l.Class("mismatch")
-					l.Violate(kind+"/"+op.Kind, bad+fmt.Sprintf(" [options %+v, %s(%d, %s)]", o, op.Kind, op.Status, trunc(fmt.Sprintf("%#v", op.Val))), c17Case{o, op.Kind, op.Status, trunc(fmt.Sprintf("%#v", op.Val)), oi, seq && bad != "" && (strings.HasPrefix(bad, "in the request sequence") || strings.HasPrefix(bad, "after an earlier request"))})
+					l.Violate(kind+"/"+op.Kind, bad+fmt.Sprintf(" [options %+v, %s(%d, %s)]", o, op.Kind, op.Status, trunc(fmt.Sprintf("%#v", op.Val))), c17Case{Opts: o, Kind: op.Kind, Status: op.Status, Val: trunc(fmt.Sprintf("%#v", op.Val)), Index: oi, Refused: refused,
+						Seq: seq && !refused && (strings.HasPrefix(bad, "in the request sequence") || strings.HasPrefix(bad, "after an earlier request"))})
 					continue
 				}
 				l.Class(fmt.Sprintf("%s:%dxx", op.Kind, op.Status/100))
 				if (oi+si)%3001 == 0 {
-					l.Sample(c17Case{o, op.Kind, op.Status, trunc(fmt.Sprintf("%#v", op.Val)), oi, false})
+					l.Sample(c17Case{Opts: o, Kind: op.Kind, Status: op.Status, Val: trunc(fmt.Sprintf("%#v", op.Val)), Index: oi})
 				}
 			}
 		}
@@ -453,6 +518,9 @@ func c17Replay(raw json.RawMessage) (bool, string) {
 						}
 					}
 				}
+			}
+			if bad == "" && c.Refused {
+				bad, _ = c17AfterRefused(c.Opts, ops[c.Index], func() {})
 			}
 			return bad != "", bad
 		}
